@@ -358,6 +358,11 @@ func noXid(q *dhcpv4.DHCPv4) any {
 // observeV6 runs the whole walk on a DHCPv6 message or relay message.
 func observeV6(d dhcpv6.DHCPv6, deep bool) []obsEntry {
 	w := &walker{seen: map[string]bool{}, max: 900}
+	// Printing a relay chain costs O(depth²) (indentation) per call: beyond a dozen levels only the
+	// message-level methods and the helpers are run, not the whole reflective walk of every level.
+	if lv := relayDepthOf(d); lv > 12 {
+		w.max = 40
+	}
 	w.visit("v6", reflect.ValueOf(d), 0)
 	c := func(name string, fn func() any) {
 		w.call("v6."+name, func() []reflect.Value { return []reflect.Value{reflect.ValueOf(&[]any{fn()}[0]).Elem()} })
@@ -456,4 +461,17 @@ func methodKey(name string) string {
 		name = name[i+1:]
 	}
 	return strings.TrimSuffix(name, "()")
+}
+
+func relayDepthOf(d dhcpv6.DHCPv6) int {
+	n := 0
+	for d != nil && n < 1000 {
+		r, ok := d.(*dhcpv6.RelayMessage)
+		if !ok {
+			break
+		}
+		n++
+		d = r.Options.RelayMessage()
+	}
+	return n
 }
